@@ -51,6 +51,9 @@ func rulesC07(c *Ctx) {
 		return
 	}
 	verbatimC07(c)
+	singleEntryC07(c)
+	setParamsC07(c)
+	bindNonNilRule(c, "C07.bindnil")
 	s := p.newSCCP()
 	// ---- kinds ----
 	c.Rule("C07.kinds", "every kind of bound value maps to exactly one fixed token (name->IDENT, string->STRING, regex->REGEX, float->NUMBER, integer->INTEGER, duration->DURATIONVAL, boolean->TRUE/FALSE by value, error->BOUNDPARAM), extracted from TokenType by constant propagation: the token never depends on the value's text, so a value cannot choose how it is lexed")
